@@ -212,7 +212,10 @@ func (a *An) fnProps() map[*ssa.Function]string {
 	add("C14", "(*Conversation).receiveFragment", "(*Conversation).parseFragmentPrefix", "(*Conversation).fragment")
 	add("C15", "(otrV3).verifyInstanceTags", "(*Conversation).generateInstanceTag", "ExtractInstanceTags")
 	add("C16", "(*Conversation).checkVersion", "(*Conversation).commitToVersionFrom", "(*Conversation).processWhitespaceTag", "(*Conversation).receiveQueryMessage")
-	add("C17", "ParsePublicKey", "ImportKeys", "(*dataMsg).deserialize", "(*plainDataMsg).deserialize")
+	add("C17", "ParsePublicKey", "ImportKeys", "(*dataMsg).deserialize", "(*plainDataMsg).deserialize", "(*dhCommit).deserialize", "(*dhKey).deserialize", "(*revealSig).deserialize", "(*sig).deserialize",
+		"(*tlv).deserialize", "(tlv).smpMessage", "(dataMsg).serialize", "(plainDataMsg).serialize", "(dhCommit).serialize", "(dhKey).serialize", "(revealSig).serialize", "(sig).serialize", "(tlv).serialize",
+		"(*DSAPrivateKey).Parse", "(*DSAPrivateKey).Serialize", "(*DSAPublicKey).Parse", "(*DSAPublicKey).serialize", "ParsePrivateKey", "ExtractMPIs", "AppendMPIs", "ExtractData", "AppendData",
+		"(smp1Message).tlv", "(smp2Message).tlv", "(smp3Message).tlv", "(smp4Message).tlv", "(smpMessageAbort).tlv")
 	add("C03 C18", "(*Conversation).Send", "(*Conversation).End")
 	return out
 }
@@ -410,6 +413,8 @@ func genTables(a *An) {
 	genGates(a)
 	genEraseSites(a)
 	genConstArgs(a)
+	genReturns(a)
+	genBigOps(a)
 }
 
 // ---- events ---------------------------------------------------------------------------------------------------
